@@ -389,7 +389,13 @@ func (s *aggSession) compareFlow(f *aggFlow, get func(string) (string, bool), wh
 	}
 	if f.Ready && catNeedsCorrelation(f.Cat) {
 		v6 := s.keyV6[f.Key]
-		for name, acc := range f.Corr {
+		names := make([]string, 0, len(f.Corr))
+		for name := range f.Corr {
+			names = append(names, name)
+		}
+		sort.Strings(names) // violations are reported in a fixed order
+		for _, name := range names {
+			acc := f.Corr[name]
 			field := name
 			if name == "destinationClusterIP" {
 				field = "destinationClusterIPv4"
@@ -420,7 +426,8 @@ func (s *aggSession) checkAll(where string) {
 	if n := s.ap.GetNumFlows(); int(n) != len(s.model.Flows) {
 		s.env.Violate("c05-flow-count", "", "%s: %d flows held, model has %d", where, n, len(s.model.Flows))
 	}
-	for k, f := range s.model.Flows {
+	for _, k := range s.model.sortedKeys() {
+		f := s.model.Flows[k]
 		fk := aggKeyOf(k, s.keyV6[k])
 		recs := s.ap.GetRecords(&fk)
 		if len(recs) != 1 {
@@ -485,7 +492,8 @@ func (s *aggSession) checkSnapshot(where string, now time.Time) {
 		}
 	}
 	// deadlines
-	for k, f := range s.model.Flows {
+	for _, k := range s.model.sortedKeys() {
+		f := s.model.Flows[k]
 		if f.Fuzzy {
 			continue
 		}
@@ -598,6 +606,7 @@ func (s *aggSession) opScan(i int, op plan.Op) {
 		fail[int(n)] = true
 	}
 	reset := op.B == 1
+	slow := time.Duration(op.D) // each successful callback takes this long
 	type call struct {
 		key  intermediate.FlowKey
 		k    int
@@ -632,8 +641,18 @@ func (s *aggSession) opScan(i int, op plan.Op) {
 		if !f.Ready || !c.rdy {
 			s.env.Violate("c07-exported-not-ready", "", "%s: key %d handed to the callback while not ready to send (%s)", where, c.k, f)
 		}
+		late := false
 		if f.minDeadline().After(now) {
-			s.env.Violate("c06-early-callback", "", "%s: key %d handed to the callback %v before its deadline (%s)", where, c.k, f.minDeadline().Sub(now), f)
+			// Not due when the scan began. With a callback that takes time (op.D) the deadline may have
+			// passed since: handing such a flow over in this scan or leaving it for the next are both
+			// "when its deadline has passed". What the process then did with it is read back afterwards
+			// (fuzzy), and the held-iff-scheduled bijection is checked on that.
+			if slow > 0 && !f.minDeadline().After(time.Now()) {
+				late = true
+				s.env.Count("probe.flow_became_due_during_scan_and_was_exported", 1)
+			} else {
+				s.env.Violate("c06-early-callback", "", "%s: key %d handed to the callback %v before its deadline (%s)", where, c.k, f.minDeadline().Sub(now), f)
+			}
 		}
 		if idx > 0 && f.minDeadline().Before(prevDeadline) {
 			s.env.Violate("c06-callback-order", "", "%s: key %d (deadline +%v) after a flow with the later deadline +%v", where, c.k, f.minDeadline().Sub(bubbleEpoch), prevDeadline.Sub(bubbleEpoch))
@@ -648,8 +667,13 @@ func (s *aggSession) opScan(i int, op plan.Op) {
 			aborted = true
 			return errInjected
 		}
+		if slow > 0 {
+			s.env.Sleep(slow) // the export takes time
+		}
 		// model effect of a successful export
 		switch {
+		case late:
+			f.Fuzzy = true
 		case !f.Inactive.After(now):
 			if f.Inactive.Equal(now) {
 				f.Fuzzy = true // removed or kept: both readings of "has passed" are accepted, see below
@@ -678,7 +702,8 @@ func (s *aggSession) opScan(i int, op plan.Op) {
 		called[c.k] = true
 	}
 	// flows whose inactive deadline was exactly now and that were exported: follow the implementation
-	for k, f := range s.model.Flows {
+	for _, k := range s.model.sortedKeys() {
+		f := s.model.Flows[k]
 		if f.Fuzzy && called[k] && f.Inactive.Equal(now) {
 			fk := aggKeyOf(k, s.keyV6[k])
 			if len(s.ap.GetRecords(&fk)) == 0 {
@@ -754,7 +779,8 @@ func (s *aggSession) heldScheduled(k int) (held, scheduled bool) {
 // resyncFuzzy drops the fuzzy mark where the implementation's state can be read back.
 func (s *aggSession) resyncFuzzy() {
 	_, mapItems := s.ap.VerifSnapshot()
-	for k, f := range s.model.Flows {
+	for _, k := range s.model.sortedKeys() {
+		f := s.model.Flows[k]
 		if !f.Fuzzy {
 			continue
 		}
@@ -781,7 +807,7 @@ func (s *aggSession) opResetAll(i int) {
 		s.env.Violate("c05-reset-error", "", "op %d: ForAllRecordsDo(reset) returned %v", i, err)
 	}
 	keys := make([]int, 0)
-	for k := range s.model.Flows {
+	for _, k := range s.model.sortedKeys() {
 		keys = append(keys, k)
 	}
 	sort.Ints(keys)
